@@ -118,6 +118,7 @@ class RecXRFM(xRFM):
             'x_keys': [row_key(r) for r in train[0]] if self.rec_rows else None,
             'xval_keys': [row_key(r) for r in val[0]] if self.rec_rows else None,
             'y': train[1].detach().cpu().double().tolist() if self.rec_rows else None,
+            'yval': val[1].detach().cpu().double().tolist() if self.rec_rows else None,
             'x_dtype': str(train[0].dtype), 'y_dtype': str(train[1].dtype), 'y_shape': list(train[1].shape),
             'yval_dtype': str(val[1].dtype), 'yval_shape': list(val[1].shape), 'xval_dtype': str(val[0].dtype),
         }
